@@ -78,8 +78,8 @@ def cache_put(name, key, val):
 
 
 PLAN = {
-    "quick": [("equilibrium", 14), ("mixed", 12), ("rebuild", 8), ("rebuild_finish", 14), ("recover", 6), ("shortage", 8), ("aftermath", 6), ("exhaust", 8), ("nonreal", 6), ("overkill", 8), ("fast_rebuild", 6)],
-    "thorough": [("equilibrium", 60), ("mixed", 90), ("rebuild", 60), ("rebuild_finish", 60), ("recover", 40), ("shortage", 60), ("aftermath", 40), ("exhaust", 60), ("nonreal", 40), ("overkill", 40), ("fast_rebuild", 30)],
+    "quick": [("equilibrium", 14), ("mixed", 12), ("rebuild", 8), ("rebuild_finish", 14), ("recover", 6), ("shortage", 8), ("aftermath", 6), ("exhaust", 8), ("nonreal", 6), ("overkill", 8), ("fast_rebuild", 6), ("relay", 8)],
+    "thorough": [("equilibrium", 60), ("mixed", 90), ("rebuild", 60), ("rebuild_finish", 60), ("recover", 40), ("shortage", 60), ("aftermath", 40), ("exhaust", 60), ("nonreal", 40), ("overkill", 40), ("fast_rebuild", 30), ("relay", 30)],
 }
 MAX_STEPS_CHECKED = {"quick": 6, "thorough": 10}
 
